@@ -82,7 +82,27 @@ def dn_strata(tier):
 
 
 def cases_single(stratum, tier):
+    if "Ns" in stratum:
+        for N in stratum["Ns"]:
+            yield dict(D=stratum["D"], N=N, idx=stratum["idx"])
+        return
     yield dict(D=stratum["D"], N=stratum["N"], idx=stratum["idx"])
+
+
+def large_n_strata(tier):
+    """every N up to 300 in 1D and a spread of larger N in 2D (both tiers): the wavenumber array must hold EXACT
+    integers for every N, because the library compares it with == / <= (masks, forcing modes, dealiasing band);
+    N * fl(1/N) != 1 for a sparse set of N (49, 98, 103, 107, 161, ...)"""
+    out = []
+    for lo in range(17, 301, 20):
+        for idx in IDX if tier != "quick" else IDX[:1]:
+            out.append(dict(id="D1-N%d..%d-%s" % (lo, min(lo + 19, 300), idx), D=1, Ns=list(range(lo, min(lo + 20, 301))), idx=idx))
+    n2 = [21, 32, 49, 50, 64] if tier == "quick" else [21, 32, 49, 50, 64, 98, 103, 128]
+    for N in n2:
+        out.append(dict(id="D2-N%d-ij" % N, D=2, Ns=[N], idx="ij"))
+    if tier != "quick":
+        out.append(dict(id="D3-N49-ij", D=3, Ns=[49], idx="ij"))
+    return out
 
 
 def _shape_claim(res, cid, got, want_shape, key):
@@ -149,7 +169,8 @@ def check_masks(case):
     key = "C04:%s:D%d" % (idx, D)
     w = orc.rfft_wavenumbers(D, N)  # masks are symmetric under the axis swap of 'xy'
     shape = (1,) + w.shape[1:]
-    for cutoff in range(0, N // 2 + 2):
+    cutoffs = range(0, N // 2 + 2) if N <= 40 else sorted({0, 1, 2, 3, N // 4, N // 3, (2 * (N // 2)) // 3 - 1, (2 * (N // 2)) // 3, N // 2 - 1, N // 2, N // 2 + 1})
+    for cutoff in cutoffs:
         for sep in (True, False):
             if sep:
                 want = np.all(np.abs(w) <= cutoff, axis=0)[None]
@@ -701,6 +722,8 @@ def check_derivative_indexing(case):
 SUBS = [
     Sub("arrays", check_arrays, strata=dn_strata, cases=cases_single, exhaustive=True),
     Sub("masks", check_masks, strata=dn_strata, cases=cases_single, exhaustive=True),
+    Sub("arrays_large_n", check_arrays, strata=large_n_strata, cases=cases_single, exhaustive=True),
+    Sub("masks_large_n", check_masks, strata=large_n_strata, cases=cases_single, exhaustive=True),
     Sub(
         "mode_slices",
         check_slices,
